@@ -629,6 +629,10 @@ class IH5Group(IH5InnerNode):
 
     def copy(self, source: CopySource, dest: CopyDest, **kwargs):
         src_node = self[source] if isinstance(source, str) else source
+        if not isinstance(src_node, H5DatasetLike):
+            # snapshot of the source, taken before any destination group is created
+            # (the destination may lie inside the source)
+            kwargs["_src_children"] = _list_children(src_node, kwargs.get("shallow", False))
         name: str = kwargs.pop("name", src_node.name.split("/")[-1])
         dst_name: str
         if isinstance(dest, str):
@@ -693,6 +697,15 @@ class H5Type(str, Enum):
         return f"{type(self).__name__}.{self.value}"
 
 
+def _list_children(source_node, shallow: bool) -> List[Any]:
+    """Return (relative name, node) pairs of the children (all descendants, unless shallow)."""
+    if shallow:  # only immediate children
+        return list(source_node.items())
+    ret: List[Any] = []
+    source_node.visititems(lambda name, child: ret.append((name, child)))
+    return ret
+
+
 def h5_copy_from_to(
     source_node: Union[H5DatasetLike, H5GroupLike],
     target_group: H5GroupLike,
@@ -709,6 +722,7 @@ def h5_copy_from_to(
     """
     without_attrs: bool = kwargs.pop("without_attrs", False)
     shallow: bool = kwargs.pop("shallow", False)
+    src_children: Optional[List[Any]] = kwargs.pop("_src_children", None)
     for arg in ["expand_soft", "expand_external", "expand_refs"]:
         if not kwargs.pop(arg, True):
             raise ValueError("IH5 does not support keeping references!")
@@ -730,6 +744,11 @@ def h5_copy_from_to(
         node = target_group.create_dataset(target_path, data=source_node[()])
         copy_attrs(source_node, node)  # copy dataset attributes
     else:
+        # take a snapshot of the source before anything is created: the target may lie
+        # inside the source (copy of a group into its own subtree) and visiting is lazy
+        if src_children is None:
+            src_children = _list_children(source_node, shallow)
+
         trg_root = target_group.create_group(target_path)
         copy_attrs(source_node, trg_root)  # copy source node attributes
 
@@ -741,8 +760,5 @@ def h5_copy_from_to(
                 trg_root.create_group(name)
             copy_attrs(src_child, trg_root[name])
 
-        if shallow:  # only immediate children
-            for name, src_child in source_node.items():
-                copy_children(name, src_child)
-        else:  # recursive copy
-            source_node.visititems(copy_children)
+        for name, src_child in src_children:
+            copy_children(name, src_child)
